@@ -30,7 +30,9 @@ FORMATS = {
 SETS = {
     "plain": [(S, 2 * S, ["hello"]), (3 * S + 40000, 4 * S + 520000, ["two", "lines"]), (3600 * S, 3601 * S + 80000, ["bye"])],
     "metacharacters": [(S, 2 * S, ["a & b < c > d"]), (5 * S, 6 * S, ["\"quoted\" it's 100%"]), (7 * S, 8 * S, ["é ü 漢"]),
-                       (9 * S, 10 * S, ["C:\\new\\table {y:i} 50% {1}{2}"])],
+                       (9 * S, 10 * S, ["C:\\new\\table {y:i} 50% {1}{2}"]),
+                       # (text that is not in composed normal form: a decomposed accent, the ANGSTROM SIGN - the code points travel)
+                       (11 * S, 12 * S, ["Ame\u0301lie is 10 \u212b tall"])],
     "touching cues": [(0, S, ["first"]), (S, 2 * S, ["second", "line 2", "line 3"]), (2 * S, 2 * S + 40000, ["third"])],
     # empty lines: two and three consecutive breaks, and two breaks separated by a style node that has no tag of its own
     "empty lines": [(S, 2 * S, ["one", "", "two"]), (3 * S, 4 * S, ["top", "", "", "bottom"]),
